@@ -347,7 +347,7 @@ prop("C09", [
      "args": {"quick": ["--timeout-ms=170000", "--deadline-s=170"],
               "thorough": ["--thorough=1", "--timeout-ms=2400000", "--deadline-s=2400"]}},
     {"name": "c09_mt_tsan", "sources": ["c09_mt.cc"], "c_sources": ["common/netgate.c"], "flavour": "tsan",
-     "args": {"quick": ["--timeout-ms=170000", "--deadline-s=170", "--last=9"],
+     "args": {"quick": ["--timeout-ms=170000", "--deadline-s=170", "--last=10"],
               "thorough": ["--thorough=1", "--timeout-ms=2400000", "--deadline-s=1800"]}},
 ],
     rule="one case = a scenario (w workers sharing one Rest::Router, c keep-alive clients x r tagged requests mixing "
